@@ -189,16 +189,10 @@ func statusAnswerFacts(a *Arte, url string, nonce uint64) string {
 	if ra.Transport || ra.Code < 200 || ra.Code >= 300 || len(ra.Body) >= verifiable.VerifLimitReaderBytes {
 		return "RAErr"
 	}
-	dec := json.NewDecoder(strings.NewReader(string(ra.Body)))
-	dec.UseNumber()
-	var v any
-	if err := dec.Decode(&v); err != nil {
-		return "RAErr" // json.Unmarshal fails: syntax
+	v, err := canonBytes(ra.Body, statusS)
+	if err != nil {
+		return "RAErr" // json.Unmarshal fails: syntax / trailing data
 	}
-	if dec.More() {
-		return "RAErr" // trailing data: json.Unmarshal fails
-	}
-	v = numbersToFloat(v)
 	if v == nil {
 		v = map[string]any{} // null leaves the zero RevocationStatus
 	}
@@ -403,7 +397,7 @@ func mtpJ(v any, present bool) string {
 		// Proof.UnmarshalJSON is called with a non-object: json.Unmarshal into the struct fails
 		return "(Some (mkmtpj false []))"
 	}
-	kinds := true
+	kinds := m[badKindKey] == nil
 	if e, ok := m["existence"]; ok && e != nil {
 		if _, isB := e.(bool); !isB {
 			kinds = false
@@ -421,17 +415,33 @@ func mtpJ(v any, present bool) string {
 			}
 		}
 	}
-	var sibs []string
-	if s, ok := m["siblings"]; ok && s != nil {
-		arr, isArr := s.([]any)
-		if !isArr {
-			kinds = false
+	sibList := func(s any) string {
+		var sibs []string
+		if s != nil {
+			arr, isArr := s.([]any)
+			if !isArr {
+				kinds = false
+			}
+			for _, e := range arr {
+				sibs = append(sibs, sibClass(e))
+			}
 		}
-		for _, e := range arr {
-			sibs = append(sibs, sibClass(e))
-		}
+		return "[" + strings.Join(sibs, ";") + "]"
 	}
-	return fmt.Sprintf("(Some (mkmtpj %s [%s]))", b2c(kinds), strings.Join(sibs, ";"))
+	if ms, ok := m[sibMembersKey].([]any); ok {
+		// raw JSON: the members spelled like "siblings" up to case, in document order
+		var l []string
+		for _, e := range ms {
+			pair := e.([]any)
+			l = append(l, fmt.Sprintf("(%s, %s)", coqgen.StringLit(pair[0].(string)), sibList(pair[1])))
+		}
+		return fmt.Sprintf("(Some (mkmtpj_m %s [%s]))", b2c(kinds), strings.Join(l, ";"))
+	}
+	sl := "[]"
+	if s, ok := m["siblings"]; ok {
+		sl = sibList(s)
+	}
+	return fmt.Sprintf("(Some (mkmtpj %s %s))", b2c(kinds), sl)
 }
 
 // deepMTP: the proof object has more than 240 siblings (Proof.MarshalJSON panics on it)
@@ -450,13 +460,10 @@ func didAnswerFacts(ra *rawAnswer) string {
 	if ra == nil || ra.Transport {
 		return "DErr"
 	}
-	dec := json.NewDecoder(strings.NewReader(string(ra.Body)))
-	dec.UseNumber()
-	var env any
-	if err := dec.Decode(&env); err != nil {
+	env, err := canonFirst(ra.Body, didEnvS)
+	if err != nil {
 		return "DErr" // empty, truncated, not JSON
 	}
-	env = numbersToFloat(env)
 	if env == nil {
 		return "DNull"
 	}
